@@ -523,6 +523,44 @@ theorem askLoop_bounds (script : List Str) (att : Option Nat) (err : Option Err)
             simp only [Outcome.add_result] at hpend
             simp only [Outcome.add_reads, List.length_cons, h5 hpend]
 
+/-- The lines BEHIND the ones a dialogue reads do not influence it: if the loop ends (not
+"waiting") without reading past the script, it does exactly the same on any extension of the
+script (and whether or not the stream then ends). -/
+theorem askLoop_append (eof' : Bool) (extra : List Str) (script : List Str) (att : Option Nat)
+    (err : Option Err)
+    (hpend : (askLoop toInt choices multi default eof script att err).result ≠ .pending)
+    (hreads : (askLoop toInt choices multi default eof script att err).reads ≤ script.length) :
+    askLoop toInt choices multi default eof' (script ++ extra) att err =
+      askLoop toInt choices multi default eof script att err := by
+  by_cases hatt : att = some 0
+  · subst hatt
+    simp [askLoop_zero]
+  cases hp : promptCheck toInt choices multi default with
+  | error e =>
+    rw [askLoop_prompt_error toInt choices multi default eof script att err e hatt hp,
+      askLoop_prompt_error toInt choices multi default eof' (script ++ extra) att err e hatt hp]
+  | ok u =>
+    cases u
+    induction script generalizing att err with
+    | nil =>
+      rw [askLoop_nil toInt choices multi default eof att err hatt hp] at hpend hreads
+      cases eof <;> simp at hpend hreads
+    | cons line rest ih =>
+      cases hl : lineResult toInt choices multi default line with
+      | ok a =>
+        rw [List.cons_append, askLoop_cons_ok toInt choices multi default eof line rest att err a hatt hp hl,
+          askLoop_cons_ok toInt choices multi default eof' line (rest ++ extra) att err a hatt hp hl]
+      | error e =>
+        rw [askLoop_cons_error toInt choices multi default eof line rest att err e hatt hp hl] at hpend hreads ⊢
+        rw [List.cons_append,
+          askLoop_cons_error toInt choices multi default eof' line (rest ++ extra) att err e hatt hp hl]
+        by_cases hatt' : att.map (· - 1) = some 0
+        · rw [hatt']
+          simp [askLoop_zero]
+        · simp only [Outcome.add_result] at hpend
+          simp only [Outcome.add_reads, List.length_cons] at hreads
+          rw [ih (att.map (· - 1)) (some e) hpend (by omega) hatt']
+
 end bounds
 
 /-! ### deciders (Model/Question.lean) and the decimal numerals `str(i)` -/
